@@ -100,7 +100,7 @@ func checkC07(p *Prog, r *Report) {
 					}
 				}
 				// BO-WHOLE
-				if inPayload && (x.Op == token.SHR || x.Op == token.SHL || x.Op == token.AND) {
+				if (inPayload || rel == "meta/utils") && (x.Op == token.SHR || x.Op == token.SHL || x.Op == token.AND) {
 					if src := orderedSource(x.X, 0); src != "" {
 						r.Bad("BO-WHOLE", fmt.Sprintf("%s | %s on %s", fnName(f), x.Op, src), at, "a value read with the payload's byte order (or the raw offset slot) is taken apart with shifts/masks: that is only right for one of the two orders")
 					}
@@ -171,6 +171,15 @@ func orderedSource(v ssa.Value, depth int) string {
 	case *ssa.Call:
 		if sc := x.Call.StaticCallee(); sc != nil && sc.Signature.Recv() != nil && isByteOrderType(sc.Signature.Recv().Type()) && strings.HasPrefix(sc.Name(), "Uint") && sc.Name() != "Uint8" {
 			return "ByteOrder." + sc.Name() + "(…)"
+		}
+		if sc := x.Call.StaticCallee(); sc != nil && sc.Pkg != nil && sc.Pkg.Pkg.Path() == "encoding/binary" && strings.HasPrefix(sc.Name(), "Uint") {
+			return "binary." + sc.Name() + "(…)"
+		}
+	case *ssa.Phi:
+		for _, e := range x.Edges {
+			if s := orderedSource(e, depth+1); s != "" {
+				return s
+			}
 		}
 	case *ssa.UnOp:
 		if x.Op == token.MUL {
